@@ -68,16 +68,12 @@ HasZeroArgOpen(n) ==
     [] n.k = "let" -> HZSeq([i \in 1..Len(n.bs) |-> n.bs[i].x], 1) \/ HasZeroArgOpen(n.x)
     [] n.k = "call" -> (n.f \in ZeroArgOpen /\ Len(n.as) = 0) \/ HZSeq(n.as, 1)
 
-\* When the text does not parse, faults that are nevertheless visibly
-\* present in the token stream may be reported instead of "syntax" (the
-\* standard leaves open which of several faults is reported).
-TokenFaults(ts) ==
-  UNION { IF ts[i].k = "id" /\ K(ts, i + 1) = "lparen"
-          THEN (IF ts[i].cp \in FnNames THEN {"invalid-arity", "invalid-type"} ELSE {"unknown-function"})
-          ELSE IF ts[i].k = "colon" /\ K(ts, i + 1) = "int" /\ IntTok(ts[i + 1].cp).v = 0
-                  /\ K(ts, i + 2) = "rbracket"
-          THEN {"invalid-value"}
-          ELSE {} : i \in 1..Len(ts) }
+\* When the text does not parse it is a syntax error and nothing else (C04: "fails with a syntax error for
+\* every string outside it"; C08).  Until round 9 faults "visibly present in the token stream" -- a call with
+\* a known or unknown name, a slice step of 0 -- were admitted next to syntax, because the implementation
+\* reported them on one token of lookahead; that was its defect (repaired by aa3e261), not an openness of
+\* the standard.  TokenFaults is kept to say what used to be admitted.
+TokenFaults(ts) == {}
 
 \* [ok |-> TRUE, n |-> ast, open |-> BOOLEAN] or [ok |-> FALSE, cs |-> error classes]
 Compile(ts, m) ==
